@@ -74,6 +74,9 @@ pub trait BK: Sized + Clone + PartialEq + Hash + Encode + Decode + serde::Serial
     fn display_(&self) -> Option<String> {
         None
     }
+    /// every way of driving the iterator (adaptors, partial consumption, overridable methods) agrees with the same
+    /// program on a plain sequence of booleans
+    fn iter_protocol_(&self) -> bool;
 }
 
 macro_rules! common_methods {
@@ -116,6 +119,61 @@ macro_rules! common_methods {
         }
         fn is_empty_(&self) -> bool {
             self.is_empty()
+        }
+        fn iter_protocol_(&self) -> bool {
+            let mut v: Vec<bool> = Vec::new();
+            let mut it = self.iter();
+            while let Some(b) = it.next() {
+                v.push(b);
+                if v.len() > self.len() + 8 {
+                    return false;
+                }
+            }
+            if it.next().is_some() || it.next().is_some() {
+                return false;
+            }
+            let n = v.len();
+            if n != self.len() {
+                return false;
+            }
+            let r = || v.iter().copied();
+            let hint_ok = |h: (usize, Option<usize>), rem: usize| h.0 <= rem && h.1.map_or(true, |u| u >= rem);
+            let mut ok = self.iter().count() == n
+                && self.iter().last() == r().last()
+                && self.iter().collect::<Vec<_>>() == v
+                && hint_ok(self.iter().size_hint(), n)
+                && self.iter().filter(|b| *b).count() == r().filter(|b| *b).count()
+                && self.iter().position(|b| b) == r().position(|b| b)
+                && self.iter().all(|b| b) == r().all(|b| b)
+                && self.iter().any(|b| b) == r().any(|b| b)
+                && self.iter().fold(0usize, |a, b| a.wrapping_mul(3).wrapping_add(b as usize)) == r().fold(0usize, |a, b| a.wrapping_mul(3).wrapping_add(b as usize))
+                && self.iter().zip(r()).all(|(a, b)| a == b)
+                && self.iter().chain(self.iter()).count() == 2 * n;
+            for k in [0, 1, 2, 7, 8, n / 2, n.saturating_sub(1), n, n + 1] {
+                ok &= self.iter().nth(k) == r().nth(k);
+                ok &= self.iter().skip(k).last() == r().skip(k).last();
+                ok &= self.iter().skip(k).count() == r().skip(k).count();
+                ok &= self.iter().take(k).collect::<Vec<_>>() == r().take(k).collect::<Vec<_>>();
+                ok &= self.iter().step_by(k.max(1)).collect::<Vec<_>>() == r().step_by(k.max(1)).collect::<Vec<_>>();
+                let (mut a, mut b) = (self.iter(), r());
+                for _ in 0..k {
+                    ok &= a.next() == b.next();
+                }
+                ok &= hint_ok(a.size_hint(), n.saturating_sub(k));
+                ok &= a.last() == b.last();
+                let (mut a, mut b) = (self.iter(), r());
+                for _ in 0..k {
+                    a.next();
+                    b.next();
+                }
+                ok &= a.count() == b.count();
+                let (mut a, mut b) = (self.iter(), r());
+                ok &= a.nth(k) == b.nth(k);
+                ok &= a.next() == b.next();
+                ok &= a.nth(1) == b.nth(1);
+                ok &= a.last() == b.last();
+            }
+            ok
         }
     };
 }
@@ -636,9 +694,20 @@ fn run_history<B: BK>(ctx: &mut Ctx, ops: &[String]) {
         } else {
             ctx.out.r(prop, "bitops", true, &[]);
         }
+        if let Some(last) = pool.last() {
+            // whatever operation produced it, a value's encoding is the specified encoding of its bits (C03)
+            let enc_ok = catch_unwind(AssertUnwindSafe(|| last.as_ssz_bytes() == spec_enc(kind, &last.bits_()) && last.ssz_bytes_len() == last.as_ssz_bytes().len())).unwrap_or(false);
+            ctx.out.r("C03", "bitops", enc_ok, &["encoding_of_operation_result_is_spec_encoding", "bitops", &ks, &hist, &step.to_string()]);
+            ctx.out.r("C07", "bitops", enc_ok, &["encoding_of_operation_result_is_spec_encoding", "bitops", &ks, &hist, &step.to_string()]);
+            let okp = catch_unwind(AssertUnwindSafe(|| last.iter_protocol_())).unwrap_or(false);
+            ctx.out.r("C11", "bitops", okp, &["iteration_protocol_agrees_with_boolean_sequence", "bitops", &ks, &hist, &step.to_string()]);
+        }
         // C13: the behaviour's length invariant holds for everything in the pool
         if let Some(last) = pool.last() {
             ctx.out.r("C13", "bitops", kind.len_ok(last.len_()), &["length_bound", "bitops", &ks, &hist, &step.to_string()]);
+            // the bound also holds for what the value's own encoding says it holds: decoding it gives the same length
+            let re = catch_unwind(AssertUnwindSafe(|| B::from_ssz_bytes(&last.as_ssz_bytes()).map(|x| x.len_()).ok()));
+            ctx.out.r("C13", "bitops", matches!(&re, Ok(Some(l)) if *l == last.len_() && kind.len_ok(*l)), &["encoding_carries_the_same_length", "bitops", &ks, &hist, &step.to_string()]);
             let sl = last.slice_();
             let l = last.len_();
             let minimal = sl.len() == std::cmp::max(1, (l + 7) / 8);
@@ -669,6 +738,46 @@ pub fn run_bitops<B: BK>(ctx: &mut Ctx) {
     for _ in 0..nh {
         let ops = gen_ops(&mut g, kind, n_ops);
         run_history::<B>(ctx, &ops);
+    }
+    // operand pairs whose lengths straddle a byte / word boundary, for the larger capacities: the shorter operand ends
+    // exactly at the boundary, the longer one has its only extra bit right behind it
+    if let Kind::V(n) = kind {
+        if n > 17 {
+            for lb in [8usize, 16, 24, 32, 56, 64, 72, 120, 128, 136, 192, 256, 320, 512, 1024, 2048, 4088] {
+                for extra in [1usize, 2, 8, 9] {
+                    let la = lb + extra;
+                    if la > n {
+                        continue;
+                    }
+                    let full_b = vec![true; lb];
+                    let sparse_b: Vec<bool> = (0..lb).map(|i| i % 3 != 1).collect();
+                    for b in [full_b, sparse_b] {
+                        let only_extra: Vec<bool> = (0..la).map(|i| i == lb).collect();
+                        let prefix_plus: Vec<bool> = (0..la).map(|i| if i < lb { b[i] && i % 2 == 0 } else { i == lb }).collect();
+                        let prefix_only: Vec<bool> = (0..la).map(|i| i < lb && b[i]).collect();
+                        let last_extra: Vec<bool> = (0..la).map(|i| i == la - 1).collect();
+                        for a in [only_extra, prefix_plus, prefix_only, last_extra] {
+                            let ops = vec![
+                                format!("bits {}", bits_str(a.iter().copied())),
+                                format!("bits {}", bits_str(b.iter().copied())),
+                                "subset 0 1".to_string(),
+                                "subset 1 0".to_string(),
+                                "union 0 1".to_string(),
+                                "inter 0 1".to_string(),
+                                "diff 0 1".to_string(),
+                                "diff 1 0".to_string(),
+                                "union 1 0".to_string(),
+                                "inter 1 0".to_string(),
+                                "subset 3 0".to_string(),
+                                "subset 0 2".to_string(),
+                                "eq 2 6".to_string(),
+                            ];
+                            run_history::<B>(ctx, &ops);
+                        }
+                    }
+                }
+            }
+        }
     }
     // systematic operand pairs (C12): all length pairs for small capacities with a few patterns,
     // all bit patterns for lengths <= 4 (<= 5 in the thorough tier)
@@ -1148,6 +1257,7 @@ pub fn run_serde<B: BK>(ctx: &mut Ctx) {
         strings.push(format!("0x{}", hex(&b)));
     }
     let mut seen = std::collections::HashSet::new();
+    let mut places: Vec<B> = Vec::new();
     for st in strings {
         if !seen.insert(st.clone()) {
             continue;
@@ -1175,6 +1285,22 @@ pub fn run_serde<B: BK>(ctx: &mut Ctx) {
             _ => false,
         };
         ctx.out.r("C18", "serde", good, &["deserialize_accepts_exactly_hex_of_valid_ssz", "serde_de", &ks, &sh]);
+        // `Deserialize::deserialize_in_place` into existing values of other lengths: same verdict, same value
+        for place0 in places.iter() {
+            let mut place = place0.clone();
+            let rp = catch_unwind(AssertUnwindSafe(|| <B as serde::Deserialize>::deserialize_in_place(serde_json::Value::String(st.clone()), &mut place).is_ok()));
+            let okp = match (&rp, &r) {
+                (Ok(true), Ok(Ok(y))) => place == *y && impl_obs(&place) == impl_obs(y) && place.as_ssz_bytes() == y.as_ssz_bytes(),
+                (Ok(false), Ok(Err(_))) => true,
+                _ => false,
+            };
+            ctx.out.r("C18", "serde", okp, &["deserialize_in_place_equals_deserialize", "serde_de", &ks, &sh]);
+        }
+        if let Ok(Ok(x)) = &r {
+            if places.len() < 6 && places.iter().all(|p| p.len_() != x.len_() || p != x) {
+                places.push(x.clone());
+            }
+        }
         if let Ok(Ok(x)) = &r {
             ctx.out.r("C13", "serde", kind.len_ok(x.len_()), &["length_bound", "serde_de", &ks, &sh]);
         }
@@ -1321,6 +1447,31 @@ pub fn run_arb_extremes(ctx: &mut Ctx) {
         one::<Shleft<U1, U63>>(ctx, "BL2^63");
         one::<Sub1<Shleft<U1, U63>>>(ctx, "BL2^63-1");
         one::<typenum::U10000000000000000000>(ctx, "BL10^19");
+    }
+    // large bitvectors: generation needs exactly ceil(N/8) bytes and zero-fills what the input lacks, so a short
+    // input must succeed whatever N is (sizes a generator can really allocate)
+    fn big_vector<N: Unsigned + Clone + 'static>(ctx: &mut Ctx, name: &str) {
+        let mut any = false;
+        for d in [vec![], vec![0u8; 3], vec![0xffu8; 2]] {
+            let r = catch_unwind(AssertUnwindSafe(|| {
+                let mut u = arbitrary::Unstructured::new(&d);
+                <ssz::BitVector<N> as arbitrary::Arbitrary>::arbitrary(&mut u)
+            }));
+            ctx.out.r("C20", "arb", r.is_ok(), &["arbitrary_no_panic", "arb-extreme", name, &hex(&d)]);
+            if let Ok(Ok(x)) = &r {
+                any = true;
+                let okv = x.len() == N::to_usize() && x.num_set_bits() == d.iter().map(|b| b.count_ones() as usize).sum::<usize>();
+                ctx.out.r("C20", "arb", okv, &["arbitrary_value_is_valid", "arb-extreme", name, &hex(&d)]);
+            }
+        }
+        ctx.out.r("C20", "arb", any, &["some_input_succeeds", "arb-extreme", name]);
+    }
+    {
+        use typenum::{Shleft, Sum, U1, U20, U24, U27, U28, U8};
+        big_vector::<Shleft<U1, U20>>(ctx, "BV2^20");
+        big_vector::<Sum<Shleft<U1, U24>, U8>>(ctx, "BV2^24+8");
+        big_vector::<Sum<Shleft<U1, U27>, U8>>(ctx, "BV2^27+8");
+        big_vector::<Shleft<U1, U28>>(ctx, "BV2^28");
     }
 }
 
